@@ -354,8 +354,11 @@ class Kernel:
         if self.aborting:
             raise SimAbort()
 
-    def enter(self, label):
-        """Start of a kernel call: dead check, pre-emption point, signal delivery."""
+    def enter(self, label, deliver=True):
+        """Start of a kernel call: dead check, pre-emption point, signal delivery.
+
+        deliver=False for calls that cannot block (sem_post, close, ...): the C call is not
+        interrupted; pending handlers run after it (the caller invokes after_nonblocking())."""
         a = self.by_ident.get(_real_get_ident())
         if a is None:
             raise RuntimeError('kernel call %r from a non-actor thread' % (label,))
@@ -371,8 +374,25 @@ class Kernel:
         a.state = 'running'
         if a.proc.dead:
             raise SimDead()
-        if a.proc.pending and a is a.proc.main and not a.nosig:
+        if deliver and a.proc.pending and a is a.proc.main and not a.nosig:
             self._deliver(a)
+        return a
+
+    def after_nonblocking(self, a):
+        """Run pending handlers once a non-blocking kernel call has taken effect."""
+        if a.proc.pending and a is a.proc.main and not a.nosig and not a.proc.dead:
+            self._deliver(a)
+
+    def quiet_actor(self):
+        """Calling actor for a kernel call that is not a pre-emption point.  None for a non-actor
+        thread (set-up code); actors of dead processes / torn-down runs unwind."""
+        a = self.by_ident.get(_real_get_ident())
+        if a is None:
+            return None
+        if self.aborting:
+            raise SimAbort()
+        if a.proc.dead:
+            raise SimDead()
         return a
 
     def enter_quiet(self):
@@ -621,6 +641,8 @@ class Kernel:
 
     def sleep(self, d):
         a = self.enter('sleep')
+        if self.cfg.get('log_sleeps'):
+            self.record('sleep', d, self.now)
         if d is None or d <= 0:
             return
         extra = 0.0
@@ -664,7 +686,7 @@ class Kernel:
         return of
 
     def pipe(self, quiet=False):
-        a = self.enter_quiet() if quiet else self.enter('pipe')
+        a = self.quiet_actor() if quiet else self.enter('pipe')
         proc = a.proc
         p = self._new_pipe()
         r = self._alloc_fd(proc, self._mk_of('pr', rpipe=p))
@@ -703,7 +725,7 @@ class Kernel:
             if a is None:
                 return
         else:
-            a = self.enter('close')
+            a = self.enter('close', deliver=False)
         of = a.proc.fds.pop(fd, None)
         if of is None:
             if quiet:
@@ -711,9 +733,11 @@ class Kernel:
             raise OSError(errno.EBADF, 'Bad file descriptor (sim fd %r)' % (fd,))
         self._drop_of(of)
         self.record('close', fd)
+        if not quiet:
+            self.after_nonblocking(a)
 
     def set_nonblock(self, fd, flag):
-        a = self.enter_quiet()
+        a = self.quiet_actor()
         self._of(a.proc, fd).nonblock = bool(flag)
 
     def dup_into(self, src_proc, fd, dst_proc):
@@ -889,7 +913,7 @@ class Kernel:
         return a.proc if a is not None else self.root
 
     def create_process(self, name, main_fn, inherit_fds=(), parent=None, quiet=True):
-        a = self.enter_quiet()
+        a = self.quiet_actor()
         parent = parent or (a.proc if a is not None else self.root)
         child = self._new_proc(parent, name)
         child.name = '%s%d' % (name, child.pid)
@@ -901,7 +925,7 @@ class Kernel:
         return child
 
     def spawn_thread(self, fn, name, thread_obj=None, proc=None):
-        a = self.enter_quiet()
+        a = self.quiet_actor()
         proc = proc or (a.proc if a is not None else self.root)
         full = '%s.%s' % (proc.name, name)
         n = sum(1 for x in proc.actors if x.name == full or x.name.startswith(full + '#'))
@@ -948,7 +972,7 @@ class Kernel:
         raise SimDead()
 
     def signal_set(self, signum, handler):
-        a = self.enter_quiet()
+        a = self.quiet_actor()
         proc = a.proc if a is not None else self.root
         signum = int(signum)
         if signum in (SIGKILL, SIGSTOP):
@@ -958,7 +982,7 @@ class Kernel:
         return old
 
     def signal_get(self, signum):
-        a = self.enter_quiet()
+        a = self.quiet_actor()
         proc = a.proc if a is not None else self.root
         return proc.sig.get(int(signum), SIG_DFL)
 
@@ -1015,7 +1039,7 @@ class Kernel:
             raise SimDead()
 
     def getpgid(self, pid):
-        self.enter_quiet()
+        self.quiet_actor()
         target = self.procs.get(pid)
         if target is None or target.reaped:
             raise ProcessLookupError(errno.ESRCH, 'No such process')
@@ -1064,7 +1088,7 @@ class Kernel:
         return pid, sts
 
     def urandom(self, n):
-        self.enter_quiet()
+        self.quiet_actor()
         r = self.urng
         v = bytes(r.getrandbits(8) for _ in range(n))
         self.urandom_log.append(v)
